@@ -70,8 +70,25 @@ ERR_CODES = sorted(ERR_KINDS)
 LAST_RAISED = [None]      # the very exception object the scripted socket raised last
 
 
+class Clock:
+    """Stands in for the `time` module inside boltons.socketutils: time() is frozen except when the scripted
+    socket delivers a *slow* event, which moves it far beyond any deadline."""
+    now = 1000.0
+
+    def time(self):
+        return Clock.now
+
+
+CLOCK = Clock()
+JUMP = 1.0e6
+
+
 def is_err(e):
     return isinstance(e, list) and len(e) == 2 and e[0] == "E"
+
+
+def is_slow(e):
+    return isinstance(e, list) and len(e) == 2 and e[0] == "S"
 
 
 def is_intr(e):
@@ -89,7 +106,7 @@ class ScriptSock:
     error); script: k (the kernel takes min(k+1, len) bytes), "T" or ["E", errno]."""
 
     def __init__(self, net, script, sock_timeout=None):
-        self.net = [e if is_intr(e) else bytes(e) for e in net]
+        self.net = [e if is_intr(e) else (["S", bytes(e[1])] if is_slow(e) else bytes(e)) for e in net]
         self.script = list(script)
         self.tmo = sock_timeout
         self.consumed = 0
@@ -111,6 +128,9 @@ class ScriptSock:
         if is_intr(e):
             self.net.pop(0)
             _raise(e)
+        if is_slow(e):              # the delivery arrives after the caller's deadline
+            Clock.now += JUMP
+            e = self.net[0] = e[1]
         if len(e) <= n:
             self.net.pop(0)
             out = e
@@ -121,6 +141,12 @@ class ScriptSock:
         self.recv_calls += 1
         return out
 
+    def recv_left(self):
+        return sum(1 for e in self.net if is_intr(e))
+
+    def send_left(self):
+        return sum(1 for e in self.script if is_intr(e))
+
     def send(self, data, flags=0):
         self.send_calls += 1
         if not self.script:
@@ -129,6 +155,9 @@ class ScriptSock:
             ev = self.script.pop(0)
             if is_intr(ev):
                 _raise(ev)
+            if is_slow(ev):
+                Clock.now += JUMP
+                ev = ev[1]
             k = min(ev + 1, len(data))
         self.wire += bytes(data[:k])
         return k
@@ -167,21 +196,25 @@ def _msz_kw(m):
 
 
 def run_bs(case):
+    from boltons import socketutils as su
     from boltons.socketutils import BufferedSocket
+    su.time = CLOCK
     sock = ScriptSock(case["net"], case["script"])
     tmo = case.get("timeout")
     bs = BufferedSocket(sock, timeout=tmo, maxsize=case["maxsize"], recvsize=case["recvsize"])
-    ntmo = sum(1 for e in case["net"] if is_intr(e)) + sum(1 for e in case["script"] if is_intr(e))
+    ntmo = sum(1 for e in case["net"] + case["script"] if is_intr(e) or is_slow(e))
     steps = []
     marks = {"multi_recv": 0, "timeout_partial": 0, "error_partial": 0, "partial_send": 0,
              "send_timeout_unsent": 0, "send_error_after_partial": 0, "send_error_unsent": 0,
-             "straddle_delim": 0, "size_inside_chunk": 0, "size_at_edge": 0}
+             "straddle_delim": 0, "size_inside_chunk": 0, "size_at_edge": 0, "deadline_timeout": 0,
+             "deadline_timeout_send": 0}
     delivered = 0
     for idx, op in enumerate(case["ops"]):
         k = op[0]
         tries = 0
         while True:
             rc0, sc0, cons0 = sock.recv_calls, sock.send_calls, sock.consumed
+            rl0, sl0 = sock.recv_left(), sock.send_left()
             tkw = {} if (idx + tries) % 2 else {"timeout": tmo}     # per-call timeout in rotation
             if k == "until":
                 kw = dict(_msz_kw(op[2]), **tkw)
@@ -208,7 +241,9 @@ def run_bs(case):
             else:
                 raise ValueError(op)
             if k in ("send", "buffer", "flush"):
-                buf, cnt = bs.getsendbuffer(), len(sock.wire)
+                buf, cnt, left = bs.getsendbuffer(), len(sock.wire), sock.send_left()
+                if out == ["exn", "Timeout"] and left == sl0:
+                    marks["deadline_timeout_send"] += 1
                 if sock.send_calls - sc0 >= 2:
                     marks["partial_send"] += 1
                 if out == ["exn", "Timeout"] and buf:
@@ -218,7 +253,9 @@ def run_bs(case):
                     if sock.send_calls - sc0 >= 2:
                         marks["send_error_after_partial"] += 1
             else:
-                buf, cnt = bs.getrecvbuffer(), sock.consumed
+                buf, cnt, left = bs.getrecvbuffer(), sock.consumed, sock.recv_left()
+                if out == ["exn", "Timeout"] and left == rl0:
+                    marks["deadline_timeout"] += 1
                 if sock.recv_calls - rc0 >= 2:
                     marks["multi_recv"] += 1
                 if out == ["exn", "Timeout"] and buf:
@@ -239,7 +276,7 @@ def run_bs(case):
                             marks["size_at_edge" if delivered == sock.consumed else "size_inside_chunk"] += 1
             if type(buf) is not bytes:
                 raise TypeError("buffer view is %r" % type(buf))
-            steps.append([op, out, list(buf), cnt])
+            steps.append([op, out, list(buf), cnt, left])
             tries += 1
             if not (case.get("retry") and interrupted(out) and tries <= ntmo):
                 break
@@ -256,6 +293,10 @@ def cut_stream(stream, cuts):
     for c in cuts:
         if is_intr(c):
             net.append(c)
+        elif is_slow(c):
+            if i < len(stream):
+                net.append(["S", list(stream[i:i + c[1]])])
+                i += c[1]
         elif i < len(stream):
             net.append(list(stream[i:i + c]))
             i += c
@@ -265,7 +306,9 @@ def cut_stream(stream, cuts):
 
 
 def run_ns(case):
+    from boltons import socketutils as su
     from boltons.socketutils import NetstringSocket
+    su.time = CLOCK
     wsock = ScriptSock([], case["wscript"])
     w = NetstringSocket(wsock, maxsize=case["wmax"])
     wsteps = []
@@ -282,7 +325,7 @@ def run_ns(case):
             out = _outcome(lambda: w.setmaxsize(op[1]))
         if interrupted(out) and wsock.send_calls - sc0 >= 2:
             werr_after_partial += 1
-        wsteps.append([op, out, list(w.bsock.getsendbuffer()), len(wsock.wire)])
+        wsteps.append([op, out, list(w.bsock.getsendbuffer()), len(wsock.wire), wsock.send_left()])
         return out
 
     for op in case["wops"]:
@@ -296,8 +339,8 @@ def run_ns(case):
     stream = wire + bytes(case["junk"])
     net = cut_stream(stream, case["cuts"])
     rsock = ScriptSock(net, [])
-    r = NetstringSocket(rsock, maxsize=case["rmax"])
-    ntmo = sum(1 for e in net if is_intr(e))
+    r = NetstringSocket(rsock, timeout=case.get("rtimeout", 10), maxsize=case["rmax"])
+    ntmo = sum(1 for e in net if is_intr(e) or is_slow(e))
     rsteps = []
     multi = 0
     for idx, op in enumerate(case["rops"]):
@@ -311,7 +354,7 @@ def run_ns(case):
                 out = _outcome(lambda: r.setmaxsize(op[1]))
             if out[0] == "b" and rsock.recv_calls - rc0 >= 2:
                 multi += 1
-            rsteps.append([op, out, list(r.bsock.getrecvbuffer()), rsock.consumed])
+            rsteps.append([op, out, list(r.bsock.getrecvbuffer()), rsock.consumed, rsock.recv_left()])
             tries += 1
             if not (case.get("retry") and interrupted(out) and tries <= ntmo):
                 break
@@ -391,29 +434,33 @@ def c_out(o):
 
 
 def c_net(net):
-    return clist("TimeoutEv" if e == "T" else ("ErrorEv %s" % cnat(e[1]) if is_err(e) else "Chunk %s" % cb(e))
+    return clist("TimeoutEv" if e == "T" else ("ErrorEv %s" % cnat(e[1]) if is_err(e) else
+                                                ("SlowChunk %s" % cb(e[1]) if is_slow(e) else "Chunk %s" % cb(e)))
                  for e in net)
 
 
 def c_script(sc):
-    return clist("STimeoutEv" if e == "T" else ("SErrorEv %s" % cnat(e[1]) if is_err(e) else "SAccept %s" % cnat(e))
+    return clist("STimeoutEv" if e == "T" else ("SErrorEv %s" % cnat(e[1]) if is_err(e) else
+                                                 ("SSlowAccept %s" % cnat(e[1]) if is_slow(e) else "SAccept %s" % cnat(e)))
                  for e in sc)
 
 
 def c_steps(steps, render):
-    return clist("(%s, mkObs %s %s %s)" % (render(op), c_out(o), cb(buf), cnat(cnt))
-                 for (op, o, buf, cnt) in steps)
+    return clist("(%s, mkObs %s %s %s %s)" % (render(op), c_out(o), cb(buf), cnat(cnt), cnat(left))
+                 for (op, o, buf, cnt, left) in steps)
 
 
 def to_coq(case, obs):
     if case["kind"] == "ns":
-        return "NSCase %s %s %s %s %s %s %s %s" % (
+        return "NSCase %s %s %s %s %s %s %s %s %s" % (
             cnat(case["wmax"]), c_script(case["wscript"]), c_steps(obs["wsteps"], c_nsop),
-            cb(obs["wwire"]), cnat(case["rmax"]), c_net(obs["net"]), cb(case["junk"]),
+            cb(obs["wwire"]), cnat(case["rmax"]), cbool(bool(case.get("rtimeout", 10))), c_net(obs["net"]),
+            cb(case["junk"]),
             c_steps(obs["rsteps"], c_nsop))
     f = obs["final"]
-    return "BSCase %s %s %s %s %s (mkFinal %s %s %s %s)" % (
-        cnat(case["maxsize"]), cnat(case["recvsize"]), c_net(case["net"]), c_script(case["script"]),
+    return "BSCase %s %s %s %s %s %s (mkFinal %s %s %s %s)" % (
+        cnat(case["maxsize"]), cnat(case["recvsize"]), cbool(bool(case.get("timeout"))), c_net(case["net"]),
+        c_script(case["script"]),
         c_steps(obs["steps"], c_op), cb(f["rbuf"]), cnat(f["consumed"]), cb(f["sbuf"]), cb(f["wire"]))
 
 
@@ -470,6 +517,8 @@ def add_timeouts(rng, cuts, p):
     for c in cuts:
         while rng.random() < p:
             out.append(rand_intr(rng))
+        if p and rng.random() < 0.12:
+            c = ["S", c]                 # a delivery that arrives after the deadline
         out.append(c)
     while rng.random() < p:
         out.append(rand_intr(rng))
@@ -564,7 +613,12 @@ def gen_send_ops(rng, nops):
 
 
 def rand_script(rng, n):
-    return [(rand_intr(rng, 0.5) if rng.random() < 0.3 else rng.choice([0, 0, 1, 2, 4, 8, 30])) for _ in range(n)]
+    out = []
+    for _ in range(n):
+        r = rng.random()
+        k = rng.choice([0, 0, 1, 2, 4, 8, 30])
+        out.append(rand_intr(rng, 0.5) if r < 0.3 else (["S", k] if r < 0.4 else k))
+    return out
 
 
 def gen_bs(rng, tier, flavour):
@@ -590,7 +644,7 @@ def gen_bs(rng, tier, flavour):
             ops.append(src.pop(0))
     return {"kind": "bs", "maxsize": rng.choice([0, 1, 2, 3, 4, 6, 10, 20, 100, 4096]),
             "recvsize": rng.choice([1, 1, 2, 2, 3, 4, 5, 6, 64, 4096]),
-            "timeout": rng.choice([None, None, 1000.0, 0]), "net": net, "script": script, "ops": ops,
+            "timeout": rng.choice([None, 1000.0, 1000.0, 0]), "net": net, "script": script, "ops": ops,
             "retry": rng.random() < 0.7}
 
 
@@ -652,13 +706,15 @@ def gen_ns(rng, tier):
             rops.append(["setmax", rng.choice([5, 9, 10, 99, 100, 4096])])
         else:
             rops.append(["read", None if x < 0.85 else rng.choice([5, 9, 10, 11, 99, 100])])
-    wscript = [(rand_intr(rng, 0.5) if rng.random() < 0.25 else rng.choice([0, 1, 2, 5, 30]))
+    wscript = [(rand_intr(rng, 0.5) if rng.random() < 0.25 else
+                (["S", rng.choice([0, 2, 30])] if rng.random() < 0.1 else rng.choice([0, 1, 2, 5, 30])))
                for _ in range(rng.randint(0, 6))]
     if rng.random() < 0.5:
         wscript = [e for e in wscript if not is_intr(e)]
     if wops and rng.random() < 0.2:
         wops.insert(rng.randrange(len(wops) + 1), ["flush"])
     return {"kind": "ns", "wmax": wmax, "wscript": wscript,
+            "rtimeout": rng.choice([10, 10, None]),
             "wops": wops, "rmax": rng.choice([5, 9, 10, 11, 99, 100, 101, 999, 4096, 4096]), "cuts": cuts, "junk": junk,
             "rops": rops, "retry": rng.random() < 0.8}
 
@@ -819,9 +875,12 @@ def shrink(case):
     net = case["net"]
     for i in range(len(net)):
         yield dict(case, net=net[:i] + net[i + 1:])
+        if is_slow(net[i]):
+            yield dict(case, net=net[:i] + [net[i][1]] + net[i + 1:])
+            continue
         if not is_intr(net[i]) and len(net[i]) > 1:
             yield dict(case, net=net[:i] + [net[i][:-1]] + net[i + 1:])
-        if not is_intr(net[i]) and i + 1 < len(net) and not is_intr(net[i + 1]):
+        if not is_intr(net[i]) and i + 1 < len(net) and not is_intr(net[i + 1]) and not is_slow(net[i + 1]):
             yield dict(case, net=net[:i] + [net[i] + net[i + 1]] + net[i + 2:])
     sc = case["script"]
     for i in range(len(sc)):
